@@ -567,12 +567,23 @@ func ruleStatusRowsOneDecoder(c *report.Ctx) {
 			continue
 		}
 		decoded := map[ssa.Value]bool{}
+		k := 0
 		for _, s := range calls(f, dec) {
-			if a := an.CallOf(s).Args; len(a) >= 3 {
-				decoded[a[2]] = true
+			a := an.CallOf(s).Args
+			for i, q := range dec.Params {
+				if n := an.NamedOf(q.Type()); n != nil && n.Obj() == ws.Obj() && i < len(a) {
+					decoded[a[i]] = true
+				}
+			}
+			// a decoder that hands the record back: the call is where the record is made
+			res := dec.Signature.Results()
+			for i := 0; i < res.Len(); i++ {
+				if n := an.NamedOf(res.At(i).Type()); n != nil && n.Obj() == ws.Obj() {
+					k++
+					c.OK(siteKey(f, "record", k), "made and filled by readWalletStatus", posOf(c, s))
+				}
 			}
 		}
-		k := 0
 		an.Instrs(f, func(in ssa.Instruction) {
 			a, ok := in.(*ssa.Alloc)
 			if !ok {
@@ -1487,6 +1498,28 @@ func everyIterationAppends(p *an.Prog, f *ssa.Function, over, elem string) (bool
 			if r, isRet := b.Instrs[len(b.Instrs)-1].(*ssa.Return); isRet && p.ClassifyReturn(r, pred) == an.RetError {
 				return false
 			}
+			// the error return of a spliced-in helper: the way out of the loop sets the merged error result non-nil
+			// (looked for behind blocks that only jump on)
+			for len(b.Instrs) == 1 && len(b.Succs) == 1 && len(b.Succs[0].Preds) > 1 {
+				if _, isJ := b.Instrs[0].(*ssa.Jump); !isJ {
+					break
+				}
+				b, pred = b.Succs[0], b
+			}
+			for i, pr := range b.Preds {
+				if pr != pred {
+					continue
+				}
+				for _, in := range b.Instrs {
+					e, ok := in.(*ssa.Phi)
+					if !ok {
+						break
+					}
+					if an.IsErrorType(e.Type()) && i < len(e.Edges) && p.ValState(e.Edges[i], pred, nil) == an.NonNil {
+						return false
+					}
+				}
+			}
 			return true // left the loop (break) without having appended
 		}}
 	w := s.Run(body, 0, hdr)
@@ -1656,5 +1689,233 @@ func ruleReturnedBlockWasDecoded(c *report.Ctx) {
 	}
 	if n == 0 {
 		c.Fail(sk(f)+":success-return", "ExistsTx has no success return with a block (anchor lost)", p.Pos(f.Pos()))
+	}
+}
+
+// heightLeaves: the values a height expression is computed from, looking through arithmetic, conversions, tuple
+// extraction and field loads through a pointer held in a register (the pointee of a block record is not rewritten);
+// phis, calls, parameters, constants and loads from local cells are leaves.
+func heightLeaves(v ssa.Value) []ssa.Value {
+	var out []ssa.Value
+	seen := map[ssa.Value]bool{}
+	var walk func(v ssa.Value)
+	walk = func(v ssa.Value) {
+		if v == nil || seen[v] {
+			return
+		}
+		seen[v] = true
+		switch x := v.(type) {
+		case *ssa.BinOp:
+			walk(x.X)
+			walk(x.Y)
+		case *ssa.Convert:
+			walk(x.X)
+		case *ssa.ChangeType:
+			walk(x.X)
+		case *ssa.Field:
+			walk(x.X)
+		case *ssa.Extract:
+			walk(x.Tuple)
+		case *ssa.UnOp:
+			if x.Op != token.MUL {
+				walk(x.X)
+				return
+			}
+			if fa, ok := x.X.(*ssa.FieldAddr); ok {
+				if _, isCell := fa.X.(*ssa.Alloc); !isCell {
+					walk(fa.X)
+					return
+				}
+			}
+			out = append(out, v)
+		default:
+			out = append(out, v)
+		}
+	}
+	walk(v)
+	return out
+}
+
+// dependsOnCall: v is computed (through arithmetic, phis, field loads, local cells and their field stores) from the
+// result of a call for which want is true.
+func dependsOnCall(v ssa.Value, want func(*ssa.Call) bool) bool {
+	seen := map[ssa.Value]bool{}
+	found := false
+	var walk func(v ssa.Value)
+	walk = func(v ssa.Value) {
+		if v == nil || seen[v] || found {
+			return
+		}
+		seen[v] = true
+		switch x := v.(type) {
+		case *ssa.Call:
+			if want(x) {
+				found = true
+			}
+		case *ssa.Phi:
+			for _, e := range x.Edges {
+				walk(e)
+			}
+		case *ssa.BinOp:
+			walk(x.X)
+			walk(x.Y)
+		case *ssa.Convert:
+			walk(x.X)
+		case *ssa.ChangeType:
+			walk(x.X)
+		case *ssa.Field:
+			walk(x.X)
+		case *ssa.FieldAddr:
+			walk(x.X)
+		case *ssa.Extract:
+			walk(x.Tuple)
+		case *ssa.UnOp:
+			walk(x.X)
+		case *ssa.Alloc:
+			// everything stored into the cell or into one of its fields
+			for _, r := range *x.Referrers() {
+				switch s := r.(type) {
+				case *ssa.Store:
+					if s.Addr == ssa.Value(x) {
+						walk(s.Val)
+					}
+				case *ssa.FieldAddr:
+					for _, r2 := range *s.Referrers() {
+						if st, ok := r2.(*ssa.Store); ok && st.Addr == ssa.Value(s) {
+							walk(st.Val)
+						}
+					}
+				}
+			}
+		}
+	}
+	walk(v)
+	return found
+}
+
+// ruleRollbackHeightFollowsTheWalk (C06, C01): a reorganisation walks the wallet's own chain back one synced-block record
+// at a time; the height it then rolls back to has to be worked out from the record the walk stands on.
+func ruleRollbackHeightFollowsTheWalk(c *report.Ctx) {
+	p := c.P
+	c.Rule("rollback-height-follows-the-walk", "in a function that walks the synced chain back (a SyncStore.SyncedBlock read whose height is computed from an earlier SyncedBlock answer) and rolls back (a call of the function that hands its height to TxStore.Rollback), the height of every rollback reached from such a read is computed from that read or from something recomputed after it (a loop-carried value, a fresh load): a height fixed before the walk moved on is the fork height only for one-block forks — after a restart on a branch abandoned two or more blocks deep the older stale blocks keep their credits and the new branch is connected on top of them", 0)
+	rb := fn(c, pkgTxmgr, "TxStore", "Rollback")
+	sb := fn(c, pkgTxmgr, "SyncStore", "SyncedBlock")
+	if rb == nil || sb == nil {
+		return
+	}
+	// the disconnectors: module functions that pass one of their parameters to Rollback as the height
+	type disc struct {
+		f   *ssa.Function
+		arg int
+	}
+	var discs []disc
+	for _, f := range p.ModFuncs {
+		if !p.InModule(f) || f.Blocks == nil {
+			continue
+		}
+		for _, r := range calls(f, rb) {
+			cc := an.CallOf(r)
+			if len(cc.Args) == 0 {
+				continue
+			}
+			if par, ok := cc.Args[len(cc.Args)-1].(*ssa.Parameter); ok {
+				for i, q := range f.Params {
+					if q == par {
+						discs = append(discs, disc{f, i})
+					}
+				}
+			}
+		}
+	}
+	isSB := func(call *ssa.Call) bool { return call.Call.StaticCallee() == sb }
+	n := 0
+	for _, f := range p.ModFuncs {
+		if !p.InModule(f) || f.Blocks == nil {
+			continue
+		}
+		type dsite struct {
+			in ssa.Instruction
+			h  ssa.Value
+		}
+		var ds []dsite
+		for _, d := range discs {
+			for _, s := range calls(f, d.f) {
+				cc := an.CallOf(s)
+				if d.arg < len(cc.Args) {
+					ds = append(ds, dsite{s, cc.Args[d.arg]})
+				}
+			}
+		}
+		// direct Rollback calls count as well
+		if f != rb {
+			for _, s := range calls(f, rb) {
+				cc := an.CallOf(s)
+				ds = append(ds, dsite{s, cc.Args[len(cc.Args)-1]})
+			}
+		}
+		if len(ds) == 0 {
+			continue
+		}
+		var walkReads []ssa.Instruction
+		for _, s := range calls(f, sb) {
+			cc := an.CallOf(s)
+			if dependsOnCall(cc.Args[len(cc.Args)-1], isSB) {
+				walkReads = append(walkReads, s)
+			}
+		}
+		if len(walkReads) == 0 {
+			continue
+		}
+		isWalk := map[ssa.Instruction]bool{}
+		for _, w := range walkReads {
+			isWalk[w] = true
+		}
+		for di, d := range ds {
+			leaves := heightLeaves(d.h)
+			defs := map[ssa.Instruction]bool{}
+			for _, l := range leaves {
+				if in, ok := l.(ssa.Instruction); ok {
+					defs[in] = true
+				}
+			}
+			key := siteKey(f, "rollback~height-after-walk", di+1)
+			reachedFrom := 0
+			bad := false
+			for _, w := range walkReads {
+				idx := 0
+				for k, in := range w.Block().Instrs {
+					if in == w {
+						idx = k + 1
+					}
+				}
+				// reached from this read without another read in between?
+				s0 := &an.Search{P: p, Fn: f, Cut: func(in ssa.Instruction) bool { return isWalk[in] },
+					GoalInstr: func(in ssa.Instruction) bool { return in == d.in }}
+				if s0.Run(w.Block(), idx, nil) == nil {
+					continue
+				}
+				reachedFrom++
+				if defs[w] {
+					continue
+				}
+				s1 := &an.Search{P: p, Fn: f, Cut: func(in ssa.Instruction) bool { return isWalk[in] || defs[in] },
+					GoalInstr: func(in ssa.Instruction) bool { return in == d.in }}
+				if wit := s1.Run(w.Block(), idx, nil); wit != nil {
+					bad = true
+					c.Fail(key, "the height rolled back to was fixed before the walk read this record ("+p.Desc(d.h)+"): when the fork is more than one block deep only the top stale block is unwound, the older ones keep their credits and debits and the new branch is connected over them", posOf(c, d.in), append([]string{"walk read: " + posOf(c, w)}, wit...)...)
+					break
+				}
+			}
+			if reachedFrom == 0 {
+				continue // a rollback before the walk starts
+			}
+			n++
+			if !bad {
+				c.OK(key, "computed from the record the walk stands on ("+itoa(reachedFrom)+" walk reads reach it)", posOf(c, d.in))
+			}
+		}
+	}
+	if n == 0 {
+		c.OK("rollback-height-follows-the-walk:sites", "no function both walks the synced chain back and rolls back after a walk read: nothing to compare", "")
 	}
 }
